@@ -297,7 +297,7 @@ pub fn run(ctx: &Ctx) -> Report {
     total.extra.insert("dictionary_tokens".into(), json!(dict.len()));
     total.exhaustive_parts.push("every carrier x every token of a dictionary extracted from the code generator's sources (format placeholders such as {mdt}, emitted literals)".into());
 
-    let cases = ctx.tier.pick(16_000u32, 400_000u32);
+    let cases = ctx.tier.pick(160_000u32, 1_600_000u32);
     let shards = 16;
     let dict2 = dict.clone();
     let rnd = run_shards(shards, |shard| {
